@@ -12,6 +12,7 @@ import Proofs.C03Sound
 import Proofs.C03Reject
 import Proofs.C03Cex
 import Proofs.C03Handshake
+import Proofs.C03HsCache
 namespace C03
 open FrameSpec FrameWrite
 
@@ -508,6 +509,70 @@ theorem C03_hs_auth_frame_round (cfg : Config) (au : Authn) (now : Int) (m : Lis
   expectAll_get cfg.v _ _ _ (C03_hs_frames cfg au now _ streams frames hv1 hv5 hs hx he) (k + 2) _ _
     (C03_hs_auth_token_round cfg au m cls cs more k hk hA h0 hc)
 
+/-! ### the prepared-statement cache across executions, and UNPREPARED → re-PREPARE -/
+
+open Handshake in
+/-- **C03_hs_execute_id_from_peer.** For every configuration, authenticator, plan and EVERY peer script
+    (protocol-conforming or not, any number of executions of the same or of different statements, any
+    number of UNPREPARED errors): an EXECUTE the model of conn.go (executeQuery + the session's
+    prepared-statement cache) ever writes carries an id that the peer handed out in a PREPARED answer of
+    this very exchange — never an invented, truncated or stale-from-elsewhere id. -/
+theorem C03_hs_execute_id_from_peer (cfg : Config) (au : Authn) (answers : List PeerAnswer) (id : Bytes) (p : GParams)
+    (pl : GPayload) (z : Bool) (h : (GReq.execute id p pl, z) ∈ modelReqs cfg au answers) :
+    ∃ n, PeerAnswer.prepared id n ∈ answers := by
+  have hm : (ask 0 (GReq.execute id p pl), z) ∈ (modelReqs cfg au answers).map (fun q => (ask 0 q.1, q.2)) :=
+    List.mem_map.mpr ⟨_, h, rfl⟩
+  have h1 : (List.map (tagP 0) (run cfg au (Handshake.init cfg) answers)) = specRun cfg au .options answers :=
+    (run_sim cfg au 0 answers (Handshake.init cfg) (init_inv cfg au)).1
+  simp only [modelReqs, List.map_cons, List.mem_cons] at hm
+  rcases hm with hm | hm
+  · simp [ask] at hm
+  · have hm' : (ask 0 (GReq.execute id p pl), z) ∈ specRun cfg au .options answers := by
+      rw [← h1]; exact hm
+    exact specRun_ids (fun i => ∃ n, PeerAnswer.prepared i n ∈ answers) cfg au answers .options
+      (fun i n hmem => ⟨n, hmem⟩) (idsFrom_nil _) _ hm'
+
+open Handshake in
+/-- **C03_hs_cache_hit.** Wherever in a plan a statement is prepared and executed, and the next action
+    executes the same statement again (other consistency, other values of the same number): the requests
+    are EXECUTE id, EXECUTE id — no second PREPARE, the id of the PREPARED answer both times, each
+    with its own values. For every state of the exchange, every continuation. -/
+theorem C03_hs_cache_hit (cfg : Config) (au : Authn) (z : Bool) (curKs : Bytes) (known : Known) (stmt : Bytes)
+    (cons cons2 : Nat) (vals vals2 : List (Option Bytes)) (rest : List Action) (id : Bytes) (more : List PeerAnswer)
+    (hn : vals2.length = vals.length) :
+    specRun cfg au (.prep z curKs known stmt cons vals (.exec stmt cons2 vals2 :: rest))
+        (.prepared id vals.length :: .void :: more) =
+      (specExecute cfg curKs id cons vals, z) :: (specExecute cfg curKs id cons2 vals2, z) ::
+        specRun cfg au (.exe z curKs (((curKs, stmt), (id, vals.length)) :: known) stmt cons2 vals2 rest) more := by
+  simp [specRun, specStep, specNext, specExec, hn]
+
+open Handshake in
+/-- **C03_hs_unprepared_reprepare.** An EXECUTE answered by ERROR Unprepared naming the known id of the
+    statement: the next requests are PREPARE of that very statement (with the per-request keyspace of the
+    version) and then EXECUTE with the id of the NEW PREPARED answer and the same consistency and values —
+    whatever else is known, wherever in the plan. -/
+theorem C03_hs_unprepared_reprepare (cfg : Config) (au : Authn) (z : Bool) (curKs : Bytes) (known : Known) (stmt : Bytes)
+    (cons : Nat) (vals : List (Option Bytes)) (rest : List Action) (id : Bytes) (n0 : Nat) (id2 : Bytes)
+    (more : List PeerAnswer) (hk : known.lookup (curKs, stmt) = some (id, n0)) :
+    specRun cfg au (.exe z curKs known stmt cons vals rest) (.unprepared id :: .prepared id2 vals.length :: more) =
+      (specPrepare cfg.v curKs stmt, z) :: (specExecute cfg curKs id2 cons vals, z) ::
+        specRun cfg au (.exe z curKs (((curKs, stmt), (id2, vals.length)) :: known.filter (fun e => e.1 != (curKs, stmt)))
+          stmt cons vals rest) more := by
+  have hf : specForget known (curKs, stmt) id = known.filter (fun e => e.1 != (curKs, stmt)) := by
+    simp [specForget, hk]
+  simp [specRun, specStep, hf, specExec, lookup_filter_ne]
+
+open Handshake in
+/-- an UNPREPARED that names ANOTHER id says nothing about the known one: the EXECUTE is repeated
+    unchanged (conn.go: evictPreparedID compares the ids; a conforming server never answers so) -/
+theorem C03_hs_unprepared_other_id (cfg : Config) (au : Authn) (z : Bool) (curKs : Bytes) (known : Known) (stmt : Bytes)
+    (cons : Nat) (vals : List (Option Bytes)) (rest : List Action) (id uid : Bytes) (more : List PeerAnswer)
+    (hk : known.lookup (curKs, stmt) = some (id, vals.length)) (hne : id ≠ uid) :
+    specRun cfg au (.exe z curKs known stmt cons vals rest) (.unprepared uid :: more) =
+      (specExecute cfg curKs id cons vals, z) :: specRun cfg au (.exe z curKs known stmt cons vals rest) more := by
+  have hf : specForget known (curKs, stmt) uid = known := by simp [specForget, hk, hne]
+  simp [specRun, specStep, hf, specExec, hk]
+
 /-! ## non-vacuity -/
 
 /-- a v4 EXECUTE with named values, an unset value, page size, paging state, serial consistency,
@@ -560,6 +625,25 @@ example : ∃ frames, encodeAll 4 0 [0, 0, 0, 0, 0, 0, 0, 0, 0] (modelReqs hsExC
 example (cls : Bytes) (cs : List (Option Bytes)) (i : Nat) :
     nextOf (hsExAuth.challenge (some cls :: cs.take i)) = true ∧
     hsExAuth.challenge (some cls :: cs.take (i + 1)) ≠ .fail := ⟨rfl, by simp [hsExAuth]⟩
+
+/-! non-vacuity of the cache theorems: a statement executed twice, then lost by the server -/
+def hsExCfg2 : Config := ⟨4, [0x33], [0x64], [0x31], none, false, 1, true,
+  [.exec [0x73] 6 [some [1]], .exec [0x73] 2 [none]], id⟩
+def hsExAnswers2 : List PeerAnswer :=
+  [.supported [], .ready, .prepared [9] 1, .void, .unprepared [9], .prepared [8, 8] 1, .void]
+
+example : (specReqs hsExCfg2 hsExAuth hsExAnswers2).map (·.1) =
+    [Req.options, Req.startup [(kCql, [0x33]), (kName, [0x64]), (kVersion, [0x31])],
+     Req.prepare [0x73] none [],
+     Req.execute [9] ⟨6, true, [⟨none, Val.bytes [1]⟩], none, none, none, none, none⟩ [],
+     Req.execute [9] ⟨2, true, [⟨none, Val.null⟩], none, none, none, none, none⟩ [],
+     Req.prepare [0x73] none [],
+     Req.execute [8, 8] ⟨2, true, [⟨none, Val.null⟩], none, none, none, none, none⟩ []] := by decide
+example : specFinal hsExCfg2 hsExAuth .options hsExAnswers2 = .stop .finished := by decide
+example : (GReq.execute [8, 8] (execParams hsExCfg2 [] 2 [none]) [], false) ∈ modelReqs hsExCfg2 hsExAuth hsExAnswers2 := by
+  decide
+example : ∃ n, PeerAnswer.prepared [8, 8] n ∈ hsExAnswers2 :=
+  C03_hs_execute_id_from_peer hsExCfg2 hsExAuth hsExAnswers2 [8, 8] (execParams hsExCfg2 [] 2 [none]) [] false (by decide)
 end HsExample
 
 end C03
